@@ -61,7 +61,10 @@ StepRc(s0, e) ==
     [] e.e = "rega" -> [Chk(s, Live(s, e.b), "the shared block was used after it had been released (use after free), or an unknown block was used")
                          EXCEPT !.inreg = @ \ {e.t}]
     [] e.e \in {"wswap", "wenq", "wnotified", "wdone", "pop", "popclr", "pswap", "penq", "ins", "vac"} ->
-         Chk(s, Live(s, e.b), "the shared block was used after it had been released (use after free), or an unknown block was used")
+         LET s1 == Chk(s, Live(s, e.b), "the shared block was used after it had been released (use after free), or an unknown block was used")
+         IN IF Known(s, e.b) /\ "i" \in DOMAIN e
+            THEN Chk(s1, e.i >= 0 /\ e.i < s.blk[e.b].cap, "a slot outside the waker block was used (the block has fewer slots than the collection hands out)")
+            ELSE s1
     [] e.e = "regb" -> [Chk(s, Live(s, e.b), "the shared block was used after it had been released (use after free), or an unknown block was used")
                          EXCEPT !.inreg = @ \cup {e.t}]
     [] e.e = "twc" -> [s EXCEPT !.twc = @ + 1]
